@@ -241,6 +241,7 @@ func c04Check(env *core.Env, cc core.Case) core.Verdict {
 	if err != nil {
 		return core.Viol("invalid-output", "output is not a regex: %v\n%s", err, core.Q(out))
 	}
+	whole, _ := regexp.Compile(`^(?:` + out + `)$`)
 	rng := rand.New(rand.NewSource(c.Seed))
 	ev := c.ev()
 	evStrings := samples(rng, ev.Pattern, 6)
@@ -332,6 +333,11 @@ func c04Check(env *core.Env, cc core.Case) core.Verdict {
 			subject := pre + variant + post
 			if !re.MatchString(subject) {
 				return fail("variant-not-matched", "word %q: the variant %s (a member of the plain reading of the word) is not matched", w, core.Q(subject))
+			}
+			// a regex that lost the block (or is empty) still "finds" something in every subject: the variant is a
+			// member of the plain reading as a whole, so the generated regex must accept it as a whole too
+			if whole != nil && memberFull.MatchString(variant) && !whole.MatchString(subject) {
+				return fail("variant-not-consumed", "word %q: the regex finds a match in %s only without consuming it (the variant as a whole is a member of the plain reading of the word)", w, core.Q(subject))
 			}
 		}
 		v.Counts["variants_checked"] += variants
